@@ -21,7 +21,8 @@ CONSTANT Threads       \* 1..Threads
 TIds == 1..Threads
 
 \* thread-local state
-ThInit(prog) == [prog |-> prog, ip |-> 1, pc |-> "", rec |-> [t |-> "none"], after |-> "", res |-> None]
+\* ts: the clock reading the operation took at its map access (housekeeping is judged against it)
+ThInit(prog) == [prog |-> prog, ip |-> 1, pc |-> "", rec |-> [t |-> "none"], after |-> "", res |-> None, ts |-> 0]
 
 FirstTag(o) ==
     CASE o.op = "Insert" -> "ins.map"
@@ -45,7 +46,7 @@ Enabled(g, t) == ~Done(g, t) /\ (PcAt(g.th[t]) = "sync.lock" => g.mtx = 0) /\ g.
 
 \* the current operation of thread t has returned (with result r)
 Finish(g, t, r) == [g EXCEPT !.th[t].ip = @ + 1, !.th[t].pc = "", !.th[t].res = r,
-                             !.th[t].rec = [t |-> "none"], !.th[t].after = ""]
+                             !.th[t].rec = [t |-> "none"], !.th[t].after = "", !.th[t].ts = 0]
 Goto(g, t, tag) == [g EXCEPT !.th[t].pc = tag]
 
 -----------------------------------------------------------------------------
@@ -73,7 +74,7 @@ LoopTop(g, t) ==
 -----------------------------------------------------------------------------
 (* One step of thread t                                                      *)
 
-ShouldApply(g, len) == len >= Flush \/ g.s.hk >= g.s.now
+ShouldApply(g, len, ts) == len >= Flush \/ g.s.hk >= ts
 
 Step(g, t) ==
     LET th == g.th[t]
@@ -83,23 +84,23 @@ Step(g, t) ==
     IN
     CASE pc = "ins.map" ->
            LET r == InsMap(s, o.k, o.v, o.w)
-           IN Goto([g EXCEPT !.s = [r[1] EXCEPT !.infl = @ \cup {r[2]}], !.th[t].rec = r[2]], t, "hk.w")
+           IN Goto([g EXCEPT !.s = [r[1] EXCEPT !.infl = @ \cup {r[2]}], !.th[t].rec = r[2], !.th[t].ts = s.now], t, "hk.w")
       [] pc = "inv.map" ->
            IF s.map[o.k].p
            THEN Goto([g EXCEPT !.s = [MapRemove(s, o.k) EXCEPT !.infl = @ \cup {InvRec(s, o.k)}],
-                               !.th[t].rec = InvRec(s, o.k)], t, "hk.w")
+                               !.th[t].rec = InvRec(s, o.k), !.th[t].ts = s.now], t, "hk.w")
            ELSE Finish(g, t, None)
       [] pc = "get.map" ->
            LET r == GetMap(s, o.k)
                hrec == [r[1] EXCEPT !.k = o.k] @@ [t |-> "H", by |-> t]
-           IN Goto([g EXCEPT !.s.infl = @ \cup {hrec}, !.th[t].rec = hrec, !.th[t].res = r[2]], t, "hk.r")
+           IN Goto([g EXCEPT !.s.infl = @ \cup {hrec}, !.th[t].rec = hrec, !.th[t].res = r[2], !.th[t].ts = s.now], t, "hk.r")
       [] pc = "invall" -> Finish([g EXCEPT !.s.va = s.now], t, None)
       [] pc = "ck" -> Finish(g, t, IF Visible(s, o.k) THEN 1 ELSE 0)
       [] pc = "adv" -> Finish([g EXCEPT !.s.now = s.now + o.d], t, None)
       [] pc \in {"hk.w", "hk.r"} ->
            LET len == IF pc = "hk.w" THEN Len(s.wch) ELSE Len(s.rch)
                nxt == IF pc = "hk.w" THEN "send.w" ELSE "send.r"
-           IN IF ShouldApply(g, len) /\ g.hkrun = 0
+           IN IF ShouldApply(g, len, th.ts) /\ g.hkrun = 0
               THEN Goto([g EXCEPT !.hkrun = t, !.s.hk = s.now, !.th[t].after = nxt], t, "sync.lock")
               ELSE Goto(g, t, nxt)
       [] pc = "send.w" ->
